@@ -215,3 +215,97 @@ func verif_C16_envelope() {
 	verifAssert(be.find("Mail", "s@v") >= 0 && be.count("Mail") == 1 && be.count("Data") == 1, "C16.env-one-transaction")
 	verifReach("C16.env-end")
 }
+
+type verifPieceReader struct {
+	data []byte
+	cut  int
+	pos  int
+}
+
+func (r *verifPieceReader) Read(b []byte) (int, error) {
+	if r.pos >= len(r.data) {
+		return 0, io.EOF
+	}
+	end := len(r.data)
+	if r.pos < r.cut {
+		end = r.cut
+	}
+	n := copy(b, r.data[r.pos:end])
+	r.pos += n
+	return n, nil
+}
+
+// verif_C16_sendmail: Client.SendMail is Mail, Rcpt for every recipient in
+// order, Data, the message, Close - and stops at the first step the server
+// refuses, returning that refusal. One or two recipients, a body of three
+// arbitrary octets handed over by a Reader in two pieces, and the server
+// refusing at an arbitrary step (or not at all): what SendMail writes and
+// returns equals what the explicit sequence of calls writes and returns.
+func verif_C16_sendmail() {
+	n := nondetInt(1, 2)
+	list := []string{"a@v", "b@v"}[:n]
+	body := nondetBytesN(3)
+	for i, ch := range body {
+		if ch == '\r' {
+			assume(i+1 < len(body) && body[i+1] == '\n')
+		}
+	}
+	cut := nondetInt(0, len(body))
+	failAt := nondetInt(0, n+3) // 0 MAIL, 1..n RCPT i, n+1 DATA, n+2 final reply, n+3 nothing fails
+	script := ""
+	step := func(ok, bad string, i int) {
+		if failAt == i {
+			script += bad
+		} else {
+			script += ok
+		}
+	}
+	step("250 2.0.0 ok\r\n", "550 5.1.0 no sender\r\n", 0)
+	for i := 1; i <= n; i++ {
+		step("250 2.1.5 ok\r\n", "551 5.1.1 no user\r\n", i)
+	}
+	step("354 go\r\n", "554 5.3.0 no data\r\n", n+1)
+	step("250 2.0.0 queued\r\n", "552 5.3.4 too big\r\n", n+2)
+	code := func(err error) int {
+		if err == nil {
+			return 0
+		}
+		if se, ok := err.(*SMTPError); ok {
+			return se.Code
+		}
+		return -1
+	}
+	// explicit sequence
+	c1, vc1 := verifClient(script, nil)
+	manual := func() error {
+		if err := c1.Mail("s@v", nil); err != nil {
+			return err
+		}
+		for _, a := range list {
+			if err := c1.Rcpt(a, nil); err != nil {
+				return err
+			}
+		}
+		w, err := c1.Data()
+		if err != nil {
+			return err
+		}
+		w.Write(body[:cut])
+		w.Write(body[cut:])
+		return w.Close()
+	}
+	e1 := manual()
+	// SendMail
+	c2, vc2 := verifClient(script, nil)
+	e2 := c2.SendMail("s@v", list, &verifPieceReader{data: body, cut: cut})
+	verifObserve("c16sm", n, body, cut, failAt, code(e1), code(e2), len(vc1.out), len(vc2.out))
+	verifAssert(code(e1) == code(e2), "C16.sendmail-returns-what-the-failing-step-returns")
+	verifAssert(string(vc1.out) == string(vc2.out), "C16.sendmail-writes-what-the-explicit-calls-write")
+	want := []int{550, 551, 551, 554, 552, 0}
+	idx := failAt
+	if failAt > n {
+		idx = failAt - n + 2
+	}
+	verifAssert(code(e2) == want[idx], "C16.sendmail-reports-the-refusal")
+	verifReach("C16.sendmail-end")
+}
